@@ -476,6 +476,17 @@ def render(info):
     o.append("/-- members deliberately not persisted (ref/C05_transient.json, classes other than `finding`) -/")
     o.append("def transient : List Nat := [%s]" % ", ".join(map(str, tl)))
     o.append("def transientCount : Nat := %d" % len(tl))
+    fpm = set(info.get("fp_members", []))
+    fl = sorted(by_path[p_]["idx"] for p_ in fpm if p_ in by_path)
+    ex = sorted(by_path[p_]["idx"] for p_, v in tj.items() if p_ in by_path and v.get("flag_exempt"))
+    gp = sorted(by_path[p_]["idx"] for p_, v in tj.items() if p_ in by_path and v.get("flag_gap"))
+    o.append("/-- function-pointer members that set the `functionpointers` flag of a saved stream (condition of output.c:594-604) -/")
+    o.append("def fpFlagged : List Nat := [%s]" % ", ".join(map(str, fl)))
+    o.append("def fpFlaggedCount : Nat := %d" % len(fl))
+    o.append("/-- function-pointer members exempt from the flag, each with a reason in ref/C05_transient.json (`flag_exempt`) -/")
+    o.append("def fpExempt : List Nat := [%s]" % ", ".join(map(str, ex)))
+    o.append("/-- function-pointer members that SHOULD set the flag but do not (recorded findings, `flag_gap`) -/")
+    o.append("def fpGaps : List Nat := [%s]" % ", ".join(map(str, gp)))
     o.append("/-- members known to be missing from the table although they are user settings (class `finding`) -/")
     o.append("def knownGaps : List Nat := [%s]" % ", ".join(map(str, fl)))
     o.append("")
